@@ -48,11 +48,20 @@ def body(c):
         "agrees under vnacal_apply_m.  Plus %d legacy cases (compat-V2.vnacal "
         "against the S-parameters recorded in the repository's own test "
         "tables, directly and after a re-save; current files with '#VNACAL "
-        "3.x', '#VNACal 1.x' and unsupported first lines).  evaluations = "
+        "3.x', '#VNACal 1.x' and unsupported first lines), and %d cases in "
+        "which the saved container is loaded from a legacy rendering of "
+        "the same content: the '#VNACAL 2.0' layout (sets / e = rows x "
+        "columns matrix of [el, er, em] triples) written by the harness's own "
+        "writer for E12 calibrations of every dimension 1x1..3x3 with 1..5 "
+        "frequencies and 1..3 calibrations, or the current file under a "
+        "'#VNACAL 3.0' first line (all types) -- judged by the same Load "
+        "clauses (equal names, order, type, dims, frequencies, z0, terms, "
+        "vnacal_apply_m).  evaluations = "
         "episodes; distinct_nontrivial = episodes with pairwise different "
         "event sequences in which a file with >= 1 calibration was loaded "
         "and compared (or a legacy load was judged)." %
-        (stats["hist_cases"], stats["legacy_cases"]))
+        (stats["hist_cases"], stats["legacy_cases"],
+         stats["legacy_writer_cases"]))
     c.cov["trusted_base"] = [
         "TLC 1.8", "CalFile.tla (transcription of vnacal(3) + property text)",
         "harness numeric observations: relative 10^(1-p) per real/imaginary "
@@ -64,6 +73,8 @@ def body(c):
         "to files written by vnacal_save at maximum precision",
         "harness's own diagonal error-box simulator and Gauss-Jordan inverse",
         "tables compat_V2_measured / compat_V2_expected of src/tests/test-vnacal-compat-V2.c",
+        "harness's own writer of the '#VNACAL 2.0' layout (derived from "
+        "src/tests/compat-V2.vnacal), numbers in hexadecimal notation",
         "clang ASan/UBSan/LSan"]
     c.assumptions += [
         "error terms are observed through saved bytes and vnacal_apply_m only "
